@@ -143,6 +143,13 @@ def generate(seed, tier="quick"):
             segments = [n for n, _ in walk(ahb) if n["t"] == "s"]
             if segments:
                 ahb = {"lines": [rnd.choice(segments)]}
+    if rnd.random() < 0.06:
+        # two data elements of one segment that are equal in every attribute, with something else in between
+        segments = [n for n, _ in walk(ahb) if n["t"] == "s" and len(n["des"]) >= 2]
+        if segments:
+            segment = rnd.choice(segments)
+            first = rnd.randrange(len(segment["des"]) - 1)
+            segment["des"].insert(rnd.randrange(first + 2, len(segment["des"]) + 1), clone(segment["des"][first]))
     if rnd.random() < 0.06 and entry == "deep":
         ahb = widen(rnd, ahb, pool)
     elif rnd.random() < 0.04 and entry == "deep":
